@@ -86,6 +86,14 @@ func main() {
 		os.Exit(cmdExplain(os.Args[2:]))
 	case "checkall":
 		os.Exit(cmdCheckAll())
+	case "vars": // dev helper: dump the variable slots of the current tree (written to baseline/vars.json by update_baseline.sh)
+		p, err := loadProgram("linux", "amd64")
+		if err != nil {
+			fmt.Fprintln(os.Stderr, err)
+			os.Exit(2)
+		}
+		b, _ := json.MarshalIndent(dumpVars(p), "", " ")
+		os.Stdout.Write(b)
 	default:
 		usage()
 	}
